@@ -946,6 +946,11 @@ func runC08(c *Ctx) {
 	c.Min("H1-comparator-descending", 10)
 	c.ruleBinarySearch("H1b-binary-search-descending")
 	c.Min("H1b-binary-search-descending", 3)
+	// the algebra holds of what runs only if every instance of a pool gets the result of an operation: a full
+	// or incremental update and a removal reach every element of gp.rbSlice (C07-U3). A removal applied to
+	// the pool's own builder alone leaves the removed rules running on the instances
+	c.ruleU3("H10-operations-reach-every-instance")
+	c.Min("H10-operations-reach-every-instance", 10)
 	var sums []*mergeSummary
 	for _, spec := range [][3]string{{"builder", "RuleBuilder", "BuildRuleWithIncremental"}, {"engine", "", "updateIncremental"}} {
 		f := c.MustFn("H2-H5-merge", spec[0], spec[1], spec[2])
